@@ -235,6 +235,16 @@ def task_frame_encoder(I):
         I.ground('C15.frame.encode_mutates_only_objects_allocated_in_the_call', not hits and repr(content) == before,
                  witness=dict(call='encode(%r, **%r)' % (content, kw), touched=hits[:3]), replay=dict(fn='replay_purity'))
         I.ground('C15.frame.encode_ran', res.get('kind') == 'return', witness=repr(res.get('val'))[:100])
+        # interpreter soundness cross-check: the interpreted real source and CPython agree on the whole pipeline
+        if res.get('kind') == 'return':
+            from segno import encoder as _enc
+            nat = _enc.encode(content, **kw)
+            got = res['val']
+            same = ([list(getattr(r, 'items', r)) for r in got[0]] == [list(r) for r in nat.matrix]
+                    and tuple(got[1:4]) == (nat.version, nat.error, nat.mask))
+            if not same:
+                raise RuntimeError('pyvc interpreter disagrees with CPython on encode(%r, **%r)' % (content, kw))
+            I.ground('C15.crosscheck.interpreter_agrees_with_cpython_on_encode', True, kind='cover')
     for content, kw in (('A' * 120, dict(version=1)), ('1234567890' * 5, dict(symbol_count=4)), ('Hello', dict(symbol_count=1))):
         del hits[:]
         res = {}
